@@ -57,26 +57,49 @@ func relay(seed int64, ne, per, nin int, quiet time.Duration) string {
 	defer cancel()
 	var score Score
 	ProcessMidiEvents(ctx, port, evOut, evIn, &score)
-	mk := func(e, i int, r *rand.Rand) []byte {
-		// status byte carries the emitter, the two data bytes the sequence number; every 9th message is a 6-byte one
-		b := []byte{byte(0x90 | (e & 0x0f)), byte(i >> 7 & 0x7f), byte(i & 0x7f)}
-		if i%9 == 4 {
-			b = append(b, 0xf0, byte(e), 0xf7)
+	// what an emitter sends.  The low nibble of the status byte (the MIDI channel) carries the emitter.  Half of the
+	// traffic is sequence-numbered note-ons (every 9th a 6-byte message); the other half is what devices really send:
+	// note on / off, controllers, pitch bend, pressure, program changes over a handful of values — the same message again
+	// and again (an axis at rest, panic on every channel, a key hammered) is ordinary traffic and must arrive as often as
+	// it was sent
+	common := []byte{0, 64, 127, 1, 120, 123, 60}
+	mkseq := func(e int, r *rand.Rand) [][]byte {
+		var seq [][]byte
+		realistic := r.Intn(2) == 0
+		for i := 0; i < per; i++ {
+			var b []byte
+			switch {
+			case realistic && len(seq) > 0 && r.Intn(3) == 0:
+				b = append([]byte(nil), seq[len(seq)-1]...)
+			case realistic:
+				st := []byte{0xb0, 0xb0, 0xe0, 0x90, 0x80, 0xa0, 0xc0, 0xd0}[r.Intn(8)]
+				b = []byte{st | byte(e&0x0f), common[r.Intn(len(common))]}
+				if st != 0xc0 && st != 0xd0 {
+					b = append(b, common[r.Intn(len(common))])
+				}
+			default:
+				b = []byte{byte(0x90 | (e & 0x0f)), byte(i >> 7 & 0x7f), byte(i & 0x7f)}
+				if i%9 == 4 {
+					b = append(b, 0xf0, byte(e), 0xf7)
+				}
+			}
+			seq = append(seq, b)
 		}
-		return b
+		return seq
 	}
 	var sent [][]string
 	var wg sync.WaitGroup
 	for e := 0; e < ne; e++ {
+		seq := mkseq(e, rand.New(rand.NewSource(seed*37+int64(e))))
 		sent = append(sent, nil)
-		for i := 0; i < per; i++ {
-			sent[e] = append(sent[e], hex.EncodeToString(mk(e, i, nil)))
+		for _, b := range seq {
+			sent[e] = append(sent[e], hex.EncodeToString(b))
 		}
 		wg.Add(1)
 		go func(e int, r *rand.Rand) {
 			defer wg.Done()
-			for i := 0; i < per; i++ {
-				evOut <- Event(mk(e, i, r))
+			for _, b := range seq {
+				evOut <- Event(append([]byte(nil), b...))
 				if r.Intn(5) == 0 {
 					time.Sleep(time.Duration(r.Intn(200)) * time.Microsecond)
 				}
@@ -133,6 +156,12 @@ func relay(seed int64, ne, per, nin int, quiet time.Duration) string {
 	}()
 	for i := 0; i < nin; i++ {
 		b := []byte{0x80 | byte(i%16), byte(i >> 7 & 0x7f), byte(i & 0x7f)}
+		if i%7 == 6 {
+			// the same controller message as just before (a fresh slice): arrives twice
+			b = []byte{0xb0 | byte((i-1)%16), byte((i - 1) >> 7 & 0x7f), byte((i - 1) & 0x7f)}
+		} else if i%7 == 5 {
+			b[0] = 0xb0 | byte(i%16)
+		}
 		inSent = append(inSent, hex.EncodeToString(b))
 		in.ch <- b
 	}
